@@ -71,6 +71,21 @@ def _attr_case_style(task, parfile):
         fd = FiniteDifference(given, boundary='no boundary',
                               fd_order=order, verbose=False)
     shape = (p['Nx'], p['Ny'], p['Nz'])
+    # the caller re-uses its dictionary for another grid (a convergence
+    # study): the object built from it must not change
+    for c in 'xyz':
+        given['N' + c] = p['N' + c] + 3
+        given['d' + c] = p['d' + c] * 2
+    if any(fd.param['N' + c] != p['N' + c] or fd.param['d' + c] != p['d' + c]
+           for c in 'xyz'):
+        bad.append(('param-aliased', 'fd.param follows the caller\'s dict'))
+    try:
+        if min(shape) >= 3 * (order if order in (2, 4, 6, 8) else 4) // 2:
+            got = tuple(np.shape(fd.d3x(np.zeros(shape))))
+            if got != shape:
+                bad.append(('param-aliased', 'd3x shape', list(got)))
+    except Exception as ex:      # noqa: BLE001
+        bad.append(('param-aliased', 'd3x raised', repr(ex)[:80]))
     for a, c in enumerate('xyz'):
         arr = getattr(fd, c + 'array')
         n, m0, dd = p['N' + c], p[c + 'min'], p['d' + c]
@@ -162,7 +177,8 @@ def _trim_case(task):
     f0 = f.copy()
     for fn, w in ((fd.cutoffmask, m), (fd.cutoffmask2, 2 * m)):
         g = fn(f)
-        sl = tuple(slice(w, s - w) for s in shape)
+        sl = tuple(slice(None) for _ in shape[:-3]) + tuple(
+            slice(w, s - w) for s in shape[-3:])
         expect = f0[sl]
         if (g is None or g.shape != expect.shape
                 or not np.array_equal(g, expect)):
@@ -290,7 +306,9 @@ def main(tier):
     # trimming helpers
     ttasks = []
     for o in ORDERS + (1, 3, 5, 7, 10, 12):
-        for shape in [(20,), (20, 18), (20, 18, 19), (17,), (17, 17, 17)]:
+        # (tensor fields: component axes first, the grid axes last)
+        for shape in [(20,), (20, 18), (20, 18, 19), (17,), (17, 17, 17),
+                      (3, 20, 18, 19), (3, 3, 17, 17, 17)]:
             ttasks.append((o, shape))
     for t, r_ in zip(ttasks, runner.pmap(trim_case, ttasks, workers=4)):
         for bad in r_['bad']:
